@@ -209,7 +209,7 @@ fn connack_body(variant: u8) {
         drop(res);
         unsafe {
             let reset_done = g::N_CLEAR == 1;
-            assert!(session.data.session_present == sp0 || reset_done, "C05: a failed handshake changed the resume flag without a processed CONNACK(session present = 0)");
+            assert!(session.data.session_present == (sp0 && !reset_done), "C05: after a failed handshake the resume flag must be unchanged, or cleared if a CONNACK reporting no session was processed - never set (clean start is dropped only by a SUCCESSFUL handshake)");
             assert!(!reset_done || (!g::WP_FAIL && pd::FILL_OUTCOME == 0 && kind == 0 && rc == 0 && !spb), "C05: local state was discarded without a successful CONNACK reporting no session");
             assert!(reader_obs::read_bytes(&session.packet_reader) == 0 || g::WP_FAIL, "C12: a failed handshake leaves a partial inbound packet behind");
         }
